@@ -1,7 +1,8 @@
-(* C17  Hash collisions between distinct keys never alias their entries (memory tier).
+(* C17  Hash collisions between distinct keys never alias their entries (memory tier, then the disk tier).
    The hash function is an arbitrary parameter of the cache model: it only selects the shard. *)
 From Coq Require Import List NArith Bool.
 From FV Require Import Mem.Shard Mem.Cache Mem.ShardRefs Mem.ShardThms.
+From FV Require Hybrid.Collide Hybrid.CollideThms.
 Import ListNotations.
 Open Scope N_scope.
 
@@ -33,3 +34,33 @@ Example c17_nonvacuous :
                [OInsert 7 70 1 0 false false 1 []; OInsert 9 90 1 0 false false 2 []] = Some cs
              /\ map (fun s => map fst (idx s)) cs = [[9; 7]; []].
 Proof. eexists. split; [vm_compute; reflexivity|reflexivity]. Qed.
+
+(* ---- disk tier (M-COLLIDE: all keys that share one 64-bit hash; keeper probed with the full key, ONE index slot for
+   the hash, the decoded key compared before a disk hit is accepted) ---- *)
+Import Collide.
+
+(* every lookup answered in any history of enqueue / delete / flusher steps / reclaim / restart over any set of colliding
+   keys returns a version that was created for the key asked for - or nothing *)
+Theorem c17_disk_never_aliases : forall c l k v,
+  bug_keeper c = false -> bug_nocheck c = false ->
+  In (k, Some v) (cout (c_run c init_c l)) -> owner v (cown (c_run c init_c l)) = Some k.
+Proof. exact CollideThms.collisions_never_alias. Qed.
+Print Assumptions c17_disk_never_aliases.
+
+Example c17_disk_nonvacuous :
+  (* keys 1 and 2 collide.  Both are served from the write queue; once flushed, 2's entry owns the hash's index slot:
+     2 is served from disk, 1 is a miss (not 2's value); a delete of 2 hides both; after a restart the highest
+     sequence (key 1's rewrite) owns the slot and 2 is a miss *)
+  let c := mkCcfg false false in
+  cout (c_run c init_c [AEnq 1; AEnq 2; ALoad 1; ALoad 2; AFlush; AFlush; ALoad 1; ALoad 2; ADel 2; ALoad 1;
+                        AFlush; AEnq 1; AFlush; ARecover; ALoad 1; ALoad 2]) =
+  [(1, Some 1); (2, Some 2); (1, None); (2, Some 2); (1, None); (1, Some 3); (2, None)].
+Proof. vm_compute. reflexivity. Qed.
+
+(* the two ways to get it wrong (seeded changes C17-m1 and the missing key comparison) *)
+Example c17_refuted_keeper_by_hash :
+  cout (c_run (mkCcfg true false) init_c [AEnq 1; AEnq 2; ALoad 1]) = [(1, Some 2)].
+Proof. vm_compute. reflexivity. Qed.
+Example c17_refuted_no_key_check :
+  cout (c_run (mkCcfg false true) init_c [AEnq 1; AEnq 2; AFlush; AFlush; ALoad 1]) = [(1, Some 2)].
+Proof. vm_compute. reflexivity. Qed.
